@@ -213,8 +213,12 @@ func (e *Evidence) Record(spec interface{}, r Result) {
 	} else {
 		e.SubEvals++
 	}
+	seen := map[string]bool{}
 	for _, c := range r.Classes {
-		e.Classes[c]++
+		if !seen[c] {
+			seen[c] = true
+			e.Classes[c]++
+		}
 	}
 	if r.NonTrivial {
 		fp := Fingerprint(spec)
